@@ -367,6 +367,17 @@ def run(prog, chk):
             heads = [h for h in gm.loops() if gm.dominates(h, c) and h.id in gm.reachable([c])]
             tedge = [x for x in c.succ if x.kind == 'edge' and x.pol][0]
             ok = bool(heads) and any(h.id in gm.reachable([tedge]) for h in heads)
+            if ok:
+                # … without ending it on the way: no `break`, and no `<loop flag> = false`, between the modifier and the loop head
+                h0 = heads[-1]
+                cvars = set()
+                if SX.is_node(h0.e) and SX.is_node(h0.e.get('c')):
+                    cvars = {x.get('id') for x in SX.walk(h0.e['c']) if x.get('k') == 'ref' and x.get('id')}
+                seg = gm.reachable([tedge], avoid=[h0])
+                stops = [n for n in gm.nodes if n.id in seg and (n.kind == 'break' or (
+                    n.kind == 'assign' and (lambda w: w and SX.is_node(SX.strip(w[0])) and SX.strip(w[0]).get('id') in cvars and SX.is_node(SX.strip(w[1])) and
+                                            SX.strip(w[1]).get('k') == 'bool' and not SX.strip(w[1])['v'])(SX.write_target(n.e))))]
+                ok = not stops
             chk.ob('R14.5', pcm, c.ln or pcm.ln, ok,
                    'after the modifier `%s` the scan continues with the next modifier (the modifiers of a member may come in any order: '
                    '`override virtual` and `virtual override` denote the same member)' % nm.lower(), key='modifier-loop:' + nm)
